@@ -29,11 +29,12 @@ def key_of(place):
 
 
 class Taint:
-    def __init__(self, F, is_source, is_sink, opaque=None, sanitiser=None, param_source=None, dest_sink=None, arg_source=None):
+    def __init__(self, F, is_source, is_sink, opaque=None, sanitiser=None, param_source=None, dest_sink=None, arg_source=None, call_source=None):
         """is_source(callee path) -> label | None;  is_sink(callee path) -> (sink name, [argument indexes]) | None;
         opaque(callee path) -> True when a local function must not be entered (its result carries the labels of its arguments)"""
         self.F = F
         self.is_source = is_source
+        self.call_source = call_source        # fn(callee path, callee descriptor with `substs`) -> label | None: sources that depend on the generic arguments
         self.is_sink = is_sink
         self.opaque = opaque or (lambda p: False)
         self.sanitiser = sanitiser or (lambda p: False)       # calls through which no label travels (the callee only consults its arguments)
@@ -224,6 +225,8 @@ class Taint:
                 arg_ls = [read_op(a) for a in args]
                 allin = set().union(*arg_ls) if arg_ls else set()
                 lab = self.is_source(p) if p else None
+                if lab is None and p and self.call_source is not None:
+                    lab = self.call_source(p, c["f"])
                 out = {None: set()}
                 sk = self.is_sink(p) if p else None
                 if sk is not None:
